@@ -122,6 +122,10 @@ structure Cfg where
   log : List (Int × Int) := []
 deriving Repr
 
+/-- the configuration after every worker has been advanced to its first yield point -/
+def Cfg.start (maxQ last : Int) (ws : List (Int × Req)) : Cfg :=
+  { maxQ := maxQ, last := last, ths := ws.map fun w => Th.init w.1 w.2 }
+
 def Cfg.sched (c : Cfg) (i : Nat) : Cfg :=
   match c.ths[i]? with
   | none => c                                   -- unknown thread: entry skipped
@@ -143,8 +147,7 @@ def Cfg.run (c : Cfg) : List Nat → Cfg
 /-- one drain round: every thread that is still alive gets one step, in thread-id order -/
 def Cfg.round (c : Cfg) : Cfg := c.run (List.range c.ths.length)
 
-/-- the schedule, then round-robin draining (a call has at most five hooks, so five rounds finish everybody:
-    `Sentinel.C10.drain_all_done`) -/
+/-- the schedule, then round-robin draining (a call has at most five hooks, so five rounds finish everybody) -/
 def Cfg.runSched (c : Cfg) (s : List Nat) : Cfg := (c.run s).round.round.round.round.round
 
 def Cfg.results (c : Cfg) : List (Option Res) :=
